@@ -76,8 +76,16 @@ def main():
     ap.add_argument("--tier", default="quick")
     ap.add_argument("--only-file", default=None, help="restrict to mutants of this relative file")
     ap.add_argument("--ops", default=None, help="comma list of operators to keep")
+    ap.add_argument("--exclude-from", default=None, help="comma list of earlier result files (mutation/<name>.jsonl) whose mutants are not drawn again")
+    ap.add_argument("--extra", default=None, help="supporting files no property anchors: 'file=C14,C03;file2=C11' (added to those properties' file lists)")
     a = ap.parse_args()
     P = props()
+    if a.extra:
+        for item in a.extra.split(";"):
+            f, ps = item.split("=")
+            for pid in ps.split(","):
+                if f not in P[pid]:
+                    P[pid].append(f)
     sel = a.props.split(",") if a.props != "all" else sorted(P)
     work = "/tmp/mutwork/" + a.name
     shutil.rmtree(work, ignore_errors=True)
@@ -96,13 +104,22 @@ def main():
     subprocess.check_call(["go", "build", "-o", mutbin, "."], cwd=os.path.join(VERIF, "tools", "mut"), env=ENV)
     files = sorted({f for pid in sel for f in P[pid]})
     if a.only_file:
-        files = [f for f in files if f == a.only_file]
+        files = [f for f in files if f in a.only_file.split(",")]
     for f in files:
         subprocess.check_call([mutbin, "gen", REPO, f, work + "/gen"], stdout=subprocess.DEVNULL)
     allm = [json.loads(l) for l in open(work + "/gen/index.jsonl")]
     if a.ops:
         keep = set(a.ops.split(","))
         allm = [m for m in allm if m["op"] in keep]
+    if a.exclude_from:
+        seen = set()
+        for nm in a.exclude_from.split(","):
+            for l in open(os.path.join(VERIF, "mutation", nm + ".jsonl")):
+                try:
+                    seen.add(json.loads(l)["id"])
+                except Exception:
+                    pass
+        allm = [m for m in allm if m["id"] not in seen]
     byfile = collections.defaultdict(list)
     for m in allm:
         byfile[m["file"]].append(m)
@@ -115,6 +132,8 @@ def main():
     for pid in sel:
         rnd = random.Random("%d/%s" % (a.seed, pid))
         fs = [f for f in P[pid] if f in byfile]
+        if a.only_file:
+            fs = [f for f in fs if f in a.only_file.split(",")]
         if not fs:
             continue
         pools = {f: rnd.sample(byfile[f], len(byfile[f])) for f in fs}
